@@ -206,6 +206,53 @@ class Machine:
             self.mem[u32(addr + k)] = (v >> (8 * k)) & 0xFF
 
 
+# ---- floats: f registers hold 64-bit patterns; an f32 value is NaN-boxed (upper 32 bits all ones)
+import struct as _struct
+
+QNAN64 = 0x7FF8000000000000
+QNAN32 = 0x7FC00000
+BOX = 0xFFFFFFFF << 32
+
+
+def d2bits(x: float) -> int:
+    return _struct.unpack("<Q", _struct.pack("<d", x))[0]
+
+
+def bits2d(b: int) -> float:
+    return _struct.unpack("<d", _struct.pack("<Q", b & 0xFFFFFFFFFFFFFFFF))[0]
+
+
+def bits2s(b: int) -> float:
+    return _struct.unpack("<f", _struct.pack("<I", b & 0xFFFFFFFF))[0]
+
+
+def round_s(x: float) -> int:
+    """bits of the binary32 nearest (ties to even) to the double x; overflow -> infinity; NaN -> canonical"""
+    if x != x:
+        return QNAN32
+    try:
+        return _struct.unpack("<I", _struct.pack("<f", x))[0]
+    except OverflowError:
+        return 0x7F800000 if x > 0 else 0xFF800000
+
+
+def unbox(b: int) -> int:
+    return b & 0xFFFFFFFF if (b >> 32) == 0xFFFFFFFF else QNAN32
+
+
+def fop_d(op: str, a: int, b: int) -> int:
+    x, y = bits2d(a), bits2d(b)
+    r = {"fadd.d": lambda: x + y, "fsub.d": lambda: x - y, "fmul.d": lambda: x * y}[op]()
+    return QNAN64 if r != r else d2bits(r)
+
+
+def fop_s(op: str, a: int, b: int) -> int:
+    x, y = bits2s(unbox(a)), bits2s(unbox(b))
+    # the double result of +,-,* on two binary32 values rounds correctly to binary32 (53 >= 2*24+2)
+    r = {"fadd.s": lambda: x + y, "fsub.s": lambda: x - y, "fmul.s": lambda: x * y}[op]()
+    return BOX | round_s(r)
+
+
 def _imm(tok: str) -> int:
     try:
         return int(tok, 0)
@@ -306,6 +353,18 @@ def run_asm(text: str, entry: str, m: Machine, max_steps: int = 200000):
             m.setx(xr(a[0]), ~m.x[xr(a[1])])
         elif op in ("fmv.s", "fmv.d"):
             m.f[fr(a[0])] = m.f[fr(a[1])]
+        elif op == "fmv.w.x":
+            m.f[fr(a[0])] = BOX | m.x[xr(a[1])]
+        elif op == "fmv.x.w":
+            m.setx(xr(a[0]), m.f[fr(a[1])] & 0xFFFFFFFF)
+        elif op == "fcvt.d.w":
+            m.f[fr(a[0])] = d2bits(float(s32(m.x[xr(a[1])])))       # every int32 is exact in binary64
+        elif op == "fcvt.s.w":
+            m.f[fr(a[0])] = BOX | round_s(float(s32(m.x[xr(a[1])])))
+        elif op in ("fadd.d", "fsub.d", "fmul.d"):
+            m.f[fr(a[0])] = fop_d(op, m.f[fr(a[1])], m.f[fr(a[2])])
+        elif op in ("fadd.s", "fsub.s", "fmul.s"):
+            m.f[fr(a[0])] = fop_s(op, m.f[fr(a[1])], m.f[fr(a[2])])
         elif op == "lw":
             off, base = _memop(a[1])
             m.setx(xr(a[0]), m.load(m.x[base] + off, 4))
